@@ -918,6 +918,10 @@ class quantized_linear(base_quantizer.BaseQuantizer):
   def use_variables(self):
     return self._use_variables
 
+  @use_variables.setter
+  def use_variables(self, use_variables):
+    self._use_variables = use_variables
+
   @property
   def scale(self):
     return self.quantization_scale / self.data_type_scale
